@@ -138,6 +138,27 @@ func PayloadGen(d *m.Design, meth *m.Method) *rapid.Generator[value.V] {
 			}
 			out.O = append(out.O, value.Field{N: f.Name, V: genValue(t, d, f.Attr, loc, 3, nil)})
 		}
+		// open finding: a tagged response dereferences unset header attributes
+		if meth.HTTP != nil && kf.Open("C03-tagged-response-optional-header-nil-deref") {
+			for _, r := range meth.HTTP.Responses {
+				if r.TagName == "" {
+					continue
+				}
+				if tv, ok := out.Get(r.TagName); !ok || tv.S != r.TagValue {
+					continue
+				}
+				for _, hm := range r.Headers {
+					if _, ok := out.Get(hm.Attr); ok {
+						continue
+					}
+					if f := d.FieldByName(meth.Result, hm.Attr); f != nil {
+						loc := Loc{Where: "header", MustSetDefaults: true, NonEmptyArray: true, NoEmpty: kf.Open("C03-empty-string-is-absent"), SingleElemArray: kf.Open("C03-response-header-array-not-split")}
+						out.O = append(out.O, value.Field{N: f.Name, V: genValue(t, d, f.Attr, loc, 3, nil)})
+					}
+				}
+				break
+			}
+		}
 		return out
 	})
 }
@@ -186,8 +207,12 @@ func ResultGen(d *m.Design, meth *m.Method) *rapid.Generator[value.V] {
 			if w == "header" || w == "cookie" {
 				loc.NoEmpty = kf.Open("C03-empty-string-is-absent")
 				loc.NonEmptyArray = true
+				loc.SingleElemArray = kf.Open("C03-response-header-array-not-split")
 			}
 			present := f.Required || f.Attr.Default != nil
+			if !present && MinLenCollection(d, f.Attr) && kf.Open("C04-absent-optional-collection-minlength") {
+				present = true
+			}
 			if !present && meth.HTTP != nil && kf.Open("C03-response-body-attr-optional-unset-server-panic") {
 				for _, r := range meth.HTTP.Responses {
 					if r.Body != nil && r.Body.Mode == "attr" && r.Body.Attr == f.Name && d.Underlying(f.Attr) == m.Object {
@@ -195,13 +220,54 @@ func ResultGen(d *m.Design, meth *m.Method) *rapid.Generator[value.V] {
 					}
 				}
 			}
+			if !present && meth.HTTP != nil && kf.Open("C03-response-body-attr-optional-primitive-unset-arrives-zero") {
+				for _, r := range meth.HTTP.Responses {
+					if r.Body != nil && r.Body.Mode == "attr" && r.Body.Attr == f.Name && d.Underlying(f.Attr).IsPrimitive() {
+						present = true
+					}
+				}
+			}
 			if !present {
 				present = rapid.IntRange(0, 9).Draw(t, "rpresent:"+f.Name) < 6
+			}
+			// attributes used as response tags: often take one of the tag values
+			var tagVals []string
+			if meth.HTTP != nil {
+				for _, r := range meth.HTTP.Responses {
+					if r.TagName == f.Name {
+						tagVals = append(tagVals, r.TagValue)
+					}
+				}
+			}
+			if len(tagVals) > 0 && rapid.IntRange(0, 2).Draw(t, "usetag:"+f.Name) != 0 {
+				out.O = append(out.O, value.Field{N: f.Name, V: value.Str(rapid.SampledFrom(tagVals).Draw(t, "tagval"))})
+				continue
 			}
 			if !present {
 				continue
 			}
 			out.O = append(out.O, value.Field{N: f.Name, V: genValue(t, d, f.Attr, loc, 3, nil)})
+		}
+		// open finding: a tagged response dereferences unset header attributes
+		if meth.HTTP != nil && kf.Open("C03-tagged-response-optional-header-nil-deref") {
+			for _, r := range meth.HTTP.Responses {
+				if r.TagName == "" {
+					continue
+				}
+				if tv, ok := out.Get(r.TagName); !ok || tv.S != r.TagValue {
+					continue
+				}
+				for _, hm := range r.Headers {
+					if _, ok := out.Get(hm.Attr); ok {
+						continue
+					}
+					if f := d.FieldByName(meth.Result, hm.Attr); f != nil {
+						loc := Loc{Where: "header", MustSetDefaults: true, NonEmptyArray: true, NoEmpty: kf.Open("C03-empty-string-is-absent"), SingleElemArray: kf.Open("C03-response-header-array-not-split")}
+						out.O = append(out.O, value.Field{N: f.Name, V: genValue(t, d, f.Attr, loc, 3, nil)})
+					}
+				}
+				break
+			}
 		}
 		return out
 	})
